@@ -412,36 +412,3 @@ fn o10_2_client_handshake_budget() { budget_script(false); }
 #[kani::proof]
 #[kani::unwind(13)]
 fn o9_4_client_disconnect_budget() { budget_script(true); }
-
-//@h props=C10,C08 tier=quick timeout=1800 role=client-step-order
-//@fn Client::{step, flush_if_active, handle_frames, handle_frame, handle_sync, handle_events, step_if_active, now_ms}, frame::Frame::read (sync frame)
-//@bound the REAL step(): Active client whose deadline is any time <= now (the application stepped late), ONE sync frame from the peer waiting in the socket buffer; clock any < 2^40 ms; active_timeout_ms >= 1
-//@assume socket model with a one-datagram receive buffer; ghost clock (Instant::now() -> base + NOW_MS); opaque connection model; crc::compute stubbed (constant, so the queued bytes are CRC-valid)
-#[kani::proof]
-#[kani::unwind(5)]
-#[kani::stub(crate::frame::serial::crc::compute, crate::frame::serial::verif_codec::crc_stub)]
-fn o10_4_client_step_reads_frames_before_timers() {
-    unsafe { crate::frame::serial::verif_codec::CRC_STUB_VALUE = 0x01020304; }
-    let cfg = any_cfg();
-    kani::assume(cfg.active_timeout_ms >= 1);
-    let timeout = cfg.active_timeout_ms;
-    let now = any_time();
-    let deadline: u64 = kani::any();
-    kani::assume(deadline <= now);
-    let mut c = mk_client(active(kani::any(), deadline, None), cfg);
-    unsafe { env::NOW_MS = now; }
-    let bytes = frame::Frame::SyncFrame(frame::SyncFrame { next_frame_id: None, next_packet_id: None }).write();
-    c.socket.queue_rx(&bytes, 0);
-    let mut timeouts = 0;
-    let mut n = 0;
-    for e in c.step() {
-        n += 1;
-        if let Event::Error(ErrorType::Timeout) = e { timeouts += 1; }
-    }
-    // a frame from the peer was received (it was waiting in the socket) within the last active_timeout_ms
-    assert!(timeouts == 0 && state_class(&c) == 1, "[C10] no Timeout while frames from the peer keep arriving, even when the application steps late");
-    assert!(oq::count(oq::SYNC) == 1, "[C10] the waiting frame was processed");
-    if let State::Active(ref st) = c.state { assert!(st.timeout_time_ms == now + timeout, "[C10] the deadline restarts at the time the frame was read"); }
-    let _ = n;
-    std::mem::forget(c);
-}
